@@ -9,7 +9,7 @@ fn main() {
     println!("cargo:rerun-if-changed=src/shape.rs");
     println!("cargo:rerun-if-changed=build.rs");
     println!("cargo:rerun-if-env-changed=HX_C18_N");
-    let n: usize = std::env::var("HX_C18_N").ok().and_then(|s| s.parse().ok()).unwrap_or(240);
+    let n: usize = std::env::var("HX_C18_N").ok().and_then(|s| s.parse().ok()).unwrap_or(320);
     let shapes = shapes(n);
     let mut o = String::new();
     o.push_str(&format!("pub const N_SHAPES: usize = {};\n", shapes.len()));
